@@ -74,6 +74,22 @@ CHECKS = {
             'with a 0.05 margin around the boundary; E(piecewise) expressions and piecewise functions of random variables are not '
             'generated here.',
             'DESIGN.md section 4 / C10'),
+    'C14': ('property-based testing with dual-certificate identities (stationarity, strong duality, sign pattern, shapes) computed from '
+            'the model IR for every dual-capable solver interface',
+            'Generated-input search over feasible bounded continuous LPs (all bound patterns, <=,>=,== rows in four spellings, bounds as '
+            'arrays / entries / rows, min and max, split variable arrays, redundant abs/norm rows interleaving auxiliary rows); the '
+            'values of dual() from HiGHS, Gurobi and ECOS must each form an optimal dual certificate of the user model. The identities '
+            'hold for every optimal dual, so degenerate optima cannot raise an alarm. Sampling, not proof.',
+            'Row orientation follows the statement (>= as <= of the negation, == as written); tolerance 1e-6 / 1e-5 (ECOS) relative; '
+            'ro front end only.',
+            'DESIGN.md section 4 / C14'),
+    'C16': ('property-based round-trip testing: lp_export() text parsed by a strict LP-format reader written for the check (entry-wise '
+            'comparison with the formula) and by gurobipy.read (solve and compare optimum); show() frame compared cell by cell',
+            'Generated-input search over compiled LP/MILP/SOCP/MISOCP formulas incl. odd coefficient magnitudes, exponent notation, '
+            'signed zeros, empty rows, infinite bounds, typed columns with user bounds and cone rows. Sampling, not proof.',
+            'The strict reader accepts only the LP-format subset RSOME writes; Gurobi is the independent reader/solver in solve mode; '
+            'exp-cone programs are outside the LP format.',
+            'DESIGN.md section 4 / C16'),
 }
 
 NOT_YET = 'check not built yet in this round (see DESIGN.md section 4 for the planned generator and oracle)'
